@@ -1,7 +1,7 @@
 (* C30 — run-time library for the translation of problog/constraint.py (no proofs):
    Python dicts keyed by node ids, the semiring interface as a record, and its two
    instances built from the GENERATED semiring methods of C12/GenSemirings.v. *)
-From Coq Require Import ZArith String List Bool.
+From Coq Require Import ZArith QArith String List Bool.
 From PL.C12 Require Import ModelPy GenSemirings.
 Import ListNotations.
 Open Scope Z_scope.
@@ -54,3 +54,21 @@ Definition log_sr (N : NumOps) : SemiringOps (fl N) := {|
   s_pos_value := log_pos_value N; s_neg_value := log_neg_value N;
   s_in_domain := log_in_domain N; s_ad_negate := log_ad_negate N;
   s_ad_complement := log_ad_complement N; s_true := log_true N; s_false := log_false N |}.
+
+(* ---- executable comparison helpers for the correspondence (QE instance) *)
+Definition pair_close (tol : Q) (a b : qfl * qfl) : bool :=
+  fl_close tol (fst a) (fst b) && fl_close tol (snd a) (snd b).
+
+Definition dict_close (tol : Q) (d : dict qfl) (expected : list (Z * (qfl * qfl))) : bool :=
+  Nat.eqb (length d) (length expected) &&
+  forallb (fun kv => dict_mem d (fst kv) && pair_close tol (dict_get d (fst kv) (FNaN, FNaN)) (snd kv)) expected.
+
+(* expected = None: must raise InvalidValue; Some l: must return exactly the bindings l (within tol) *)
+Definition res_dict_close (tol : Q) (r : res (dict qfl)) (expected : option (list (Z * (qfl * qfl)))) : bool :=
+  match r, expected with
+  | Raise e, None => exn_eqb e InvalidValue
+  | Ok d, Some l => dict_close tol d l
+  | _, _ => false
+  end.
+
+Definition res_status {A} (r : res A) : Z := match r with Ok _ => 0 | Raise e => exn_code e end.
